@@ -266,7 +266,7 @@ def check(prop, tier, seed):
             elif r.ob.meta.get('conservative'):
                 undecided.append('%s: the ownership analysis cannot show this site writes fresh objects only (conservative analysis), and the native probe found no effect: %s' % (
                     r.name, str(verdict.get('detail', ''))[:160]))
-            elif verdict.get('fails') is False and (prop in ABSTRACT_MODEL or r.ob.meta.get('subset_guard') or r.ob.meta.get('section') in tainted):
+            elif verdict.get('fails') is False and (prop in ABSTRACT_MODEL or r.ob.meta.get('abstract_model') or r.ob.meta.get('subset_guard') or r.ob.meta.get('section') in tainted):
                 # the obligation fails in the encoding, but its counterexample - concretised, or the native battery of this clause - holds on the real
                 # code, AND the encoding is an abstraction here: the contract speaks about uninterpreted pandas operations (a refactoring builds a
                 # different but equal term), or the obligation guards the verified subset (what follows it on that path is not modelled).  The model is
